@@ -81,7 +81,12 @@ func newXPKI(base *world) *xPKI {
 	root := certs.NewCA("verif e2ex root")
 	inter := root.Intermediate("verif e2ex intermediate")
 	p := &xPKI{root: root, certs: map[string]tls.Certificate{}, state: map[string]*state{}}
-	p.w = &world{now: base.now, root: root.Cert, inter: inter.Cert, otherCA: base.otherCA, stranger: base.stranger}
+	p.w = &world{now: base.now, root: root.Cert, inter: inter.Cert, otherCA: base.otherCA, stranger: base.stranger, fat: map[int]*x509.Certificate{}}
+	// never-presented certificates of growing size (group J: an RRset of at most
+	// four '3 0 0' / '2 0 0' records that exceeds 512 / 1232 / 4096 bytes)
+	for d, n := range fatSANs {
+		p.w.fat[d] = inter.Leaf(certs.LeafOpts{DNSNames: padNames("never-presented.example.invalid", n)}).Cert
+	}
 	add := func(host, chain, leafKind string, tc tls.Certificate, cs ...*x509.Certificate) {
 		p.certs[host+"/"+chain] = tc
 		p.state[host+"/"+chain] = &state{name: "e2ex:" + chain, leafKind: leafKind, hs: true, host: host, chain: cs, chainsTo: make([]int8, len(cs))}
@@ -115,6 +120,10 @@ func newXPKI(base *world) *xPKI {
 		add(host, "expired+unrelatedCA", "expired", with(e.TLSCertificate(inter), un), e.Cert, inter.Cert, un)
 		add(host, "wrongname+unrelatedCA", "wrong-name", with(wn.TLSCertificate(inter), un), wn.Cert, inter.Cert, un)
 		add(host, "selfsigned+unrelatedCA", "self-signed", with(s.TLSCertificate(), un), s.Cert, un)
+		// a valid chain whose leaf is large (many subjectAltNames, about the size of
+		// an RSA-4096 certificate): a matching '3 0 0' record alone is > 1232 bytes (group J)
+		fl := inter.Leaf(certs.LeafOpts{DNSNames: padNames(host, 28)})
+		add(host, "fat", "ok", fl.TLSCertificate(inter), fl.Cert, inter.Cert)
 		p.state[host+"/plain"] = &state{name: "e2ex:no-handshake", leafKind: "none", hs: false, host: host}
 	}
 	return p
@@ -231,6 +240,7 @@ type envX struct {
 	pki    *xPKI
 	zones  map[string]mockdns.Zone
 	dnsSrv *mockdns.Server
+	big    *bigDNS // group J: the truncating DNS server used instead of dnsSrv
 	extR   *dns.ExtResolver
 	hops   []*hop
 	tgt    *remote.Target
@@ -239,6 +249,14 @@ type envX struct {
 	// TLSA lookup of the previous delivery is known to have been awaited, i.e.
 	// no unreachable hop).
 	mutable bool
+	// lookupIncomplete (group J, set per delivery): a UDP answer was truncated
+	// and the server gives no complete answer over TCP, so a lookup of this
+	// delivery cannot be completed by any client. A non-delivery is then caused by
+	// the lookup failure, not by the records: the converse clauses are not judged.
+	lookupIncomplete bool
+	// converseCause (group J): cause class of a refused-without-cause violation
+	// (nil: the parameter classes of the published records).
+	converseCause func(h *hop) string
 }
 
 func (e *envX) close() {
@@ -254,6 +272,9 @@ func (e *envX) close() {
 	}
 	if e.dnsSrv != nil {
 		e.dnsSrv.Close()
+	}
+	if e.big != nil {
+		e.big.close()
 	}
 }
 
@@ -285,6 +306,9 @@ type envOpts struct {
 	domainPerHop bool
 	// onConnect is consulted for the greeting of every connection to hop i.
 	onConnect func(i int) *smtpd.Action
+	// bigDNS: serve the zone through the truncating DNS server of group J
+	// (e2ez_test.go) with this TCP behaviour instead of go-mockdns's server.
+	bigDNS string
 }
 
 func domainOf(i int) string { return fmt.Sprintf("dest%d.example.invalid", i+1) }
@@ -368,8 +392,13 @@ func newEnvXOpt(pki *xPKI, specs []hopSpec, reuse bool, tag string, opt envOpts)
 	}
 
 	var err error
+	var addr *net.UDPAddr
 	for try := 0; try < 40; try++ {
-		e.dnsSrv, err = mockdns.NewServerWithLogger(e.zones, nopLog{}, false)
+		if opt.bigDNS != "" {
+			e.big, err = newBigDNS(e.zones, opt.bigDNS)
+		} else {
+			e.dnsSrv, err = mockdns.NewServerWithLogger(e.zones, nopLog{}, false)
+		}
 		if err == nil || !strings.Contains(err.Error(), "address already in use") {
 			break
 		}
@@ -379,7 +408,11 @@ func newEnvXOpt(pki *xPKI, specs []hopSpec, reuse bool, tag string, opt envOpts)
 		e.close()
 		return nil, err
 	}
-	addr := e.dnsSrv.LocalAddr().(*net.UDPAddr)
+	if e.big != nil {
+		addr = e.big.addr
+	} else {
+		addr = e.dnsSrv.LocalAddr().(*net.UDPAddr)
+	}
 	e.extR, err = dns.NewExtResolver()
 	if err != nil {
 		e.close()
@@ -632,6 +665,10 @@ func (e *envX) judgeDelivery(c *rep.Case, r *rep.Reporter, group, pfx string, ca
 			r.Count("env_io_timeout(not judged)", 1)
 			return
 		}
+		if e.lookupIncomplete {
+			r.Count(pfx+"_lookup_cannot_complete_not_delivered(not judged)", 1)
+			return
+		}
 		if _, _, ref := e.hopVerdict(h); ref.auth && !judgeMatchingRefused {
 			r.Count(pfx+"_matching_record_but_not_delivered(not judged)", 1)
 			return
@@ -641,7 +678,11 @@ func (e *envX) judgeDelivery(c *rep.Case, r *rep.Reporter, group, pfx string, ca
 			return
 		}
 		if h.st.hs {
-			c.Violation(group+"/refused-without-cause/tls/"+kindClassSet(h.ks),
+			cc := kindClassSet(h.ks)
+			if e.converseCause != nil {
+				cc = e.converseCause(h)
+			}
+			c.Violation(group+"/refused-without-cause/tls/"+cc,
 				fmt.Sprintf("MX %s (records: %s) has absent or exclusively unusable records, was contacted over TLS, yet nothing was delivered (%s)", h.spec.String(), kindsLabel(h.ks, h.noName), outcome), wit())
 		} else {
 			c.Violation(group+"/no-records-refused/plaintext",
@@ -977,4 +1018,6 @@ func e2exGroups(t *testing.T, r *rep.Reporter, w *world, mark func(string)) {
 	mark("group H")
 	concurrentGroup(t, r, pki)
 	mark("group I")
+	bigDNSGroup(t, r, pki)
+	mark("group J")
 }
